@@ -164,6 +164,7 @@ type TxWorld struct {
 	n       int
 	FetchDelay func()
 	FetchFail  func() bool // the output service fails this request (an outage)
+	FetchFailOps func(ops []wire.OutPoint) bool // ... for requests naming these outpoints
 	NoFetchTx  bool // the external tx service knows nothing (GetTx must be answered from the node's own store)
 }
 
@@ -238,6 +239,9 @@ func (w *TxWorld) GetOutputs(ctx context.Context, ops []wire.OutPoint) ([]bitcoi
 	}
 	if w.FetchFail != nil && w.FetchFail() {
 		return nil, fmt.Errorf("output service unavailable")
+	}
+	if w.FetchFailOps != nil && w.FetchFailOps(ops) {
+		return nil, fmt.Errorf("output service unavailable for these outpoints")
 	}
 	out := make([]bitcoin.UTXO, 0, len(ops))
 	for _, op := range ops {
